@@ -148,15 +148,18 @@ def handleInd (nounset : Bool) (refState : Str) (target : Param) (opToks : List 
     let cl : List String :=
       (match op with
         | .test .assignDefault colon _ =>
-          if ok && posixTable .assignDefault colon (bashState target) = .assign
-          then ["indirect_assign_default_assigns_reference"] else []
+          -- what remains of the `=`-through-a-reference defect: an element target is assigned, bash refuses it
+          (match target with
+            | .elem _ _ =>
+              if ok && posixTable .assignDefault colon (bashState target) = .assign
+              then ["indirect_assign_element_target_accepted"] else []
+            | _ => [])
         | .sub _ _ =>
           (match target with
             | .posAll _ _ => if ok then ["indirect_positional_slice_without_argv0"] else []
             | _ => [])
         | _ => [])
-    -- brush assigns to the reference: the target keeps its value
-    showRes i.res ++ [' '] ++ showProbe target { res := i.res } ++ " | ".toList ++ showOutcome target s ++
+    showOutcome target i ++ " | ".toList ++ showOutcome target s ++
       " | ".toList ++ (if cl.isEmpty then ['-'] else (String.intercalate "," cl).toList)
 
 def handle (toks : List Str) : Str :=
